@@ -522,7 +522,11 @@ class Part(object):
                     normal_dur *= 4 / ts.beat_type
                 if musical_beat:
                     normal_dur = ts.musical_beats
-                if actual_dur < normal_dur:
+                # a complete first measure is not a pickup: do not let the rounding
+                # of the interpolated duration decide the comparison
+                if actual_dur < normal_dur and not np.isclose(
+                    actual_dur, normal_dur, rtol=1e-9, atol=0
+                ):
                     y -= actual_dur
             else:
                 # warn
